@@ -236,6 +236,17 @@ func main() {
 			if rw.usedSimrt {
 				addImport(f, "simrt", simrtPath)
 			}
+			if j.instr || j.maprange {
+				// comments lose their anchors when statements are moved; keep
+				// only what precedes the package clause (build constraints)
+				var keep []*ast.CommentGroup
+				for _, cg := range f.Comments {
+					if cg.End() < f.Package {
+						keep = append(keep, cg)
+					}
+				}
+				f.Comments = keep
+			}
 			var buf bytes.Buffer
 			if err := printer.Fprint(&buf, fset, f); err != nil {
 				die("print %s: %v", rel, err)
@@ -550,6 +561,9 @@ func (r *rewriter) funcLits(n ast.Node) {
 func (r *rewriter) stmt(s ast.Stmt) []ast.Stmt {
 	switch x := s.(type) {
 	case *ast.LabeledStmt:
+		if _, isSel := x.Stmt.(*ast.SelectStmt); isSel {
+			die("labeled select in %s:%s is not supported by the rewriter", r.file, r.fn)
+		}
 		inner := r.stmt(x.Stmt)
 		// keep the label on the (last) real statement; prepend the rest
 		if len(inner) == 1 {
@@ -633,13 +647,7 @@ func (r *rewriter) stmt(s ast.Stmt) []ast.Stmt {
 		}
 		return []ast.Stmt{x}
 	case *ast.SelectStmt:
-		pre := r.yield("select")
-		for _, c := range x.Body.List {
-			cc := c.(*ast.CommClause)
-			cc.Body = r.stmts(cc.Body)
-			cc.Body = append([]ast.Stmt{r.yield("selected")}, cc.Body...)
-		}
-		return []ast.Stmt{pre, x}
+		return r.selectStmt(x)
 	case *ast.SendStmt:
 		r.funcLits(x)
 		return []ast.Stmt{r.yield("send"), x, r.yield("sent")}
@@ -673,6 +681,123 @@ func (r *rewriter) stmt(s ast.Stmt) []ast.Stmt {
 	default:
 		return []ast.Stmt{s}
 	}
+}
+
+// selectStmt makes the choice among several ready communications a tape
+// decision instead of the runtime's pseudo-random one: channel operands are
+// evaluated once, the cases are probed without blocking in a tape-chosen
+// order, and only if none is ready the goroutine blocks in a select that
+// records which case fired. The original bodies run in a switch afterwards,
+// so break/continue/return keep their meaning.
+func (r *rewriter) selectStmt(x *ast.SelectStmt) []ast.Stmt {
+	r.stats["select_rewrites"]++
+	r.tmp++
+	id := r.tmp
+	nm := func(p string, i int) *ast.Ident { return ast.NewIdent(fmt.Sprintf("_sim%s%d_%d", p, id, i)) }
+	sel := ast.NewIdent(fmt.Sprintf("_simsel%d", id))
+	lit := func(i int) ast.Expr { return &ast.BasicLit{Kind: token.INT, Value: strconv.Itoa(i)} }
+	assign := func(tok token.Token, lhs []ast.Expr, rhs ...ast.Expr) ast.Stmt {
+		return &ast.AssignStmt{Lhs: lhs, Tok: tok, Rhs: rhs}
+	}
+	out := []ast.Stmt{r.yield("select")}
+	out = append(out, assign(token.DEFINE, []ast.Expr{sel}, &ast.UnaryExpr{Op: token.SUB, X: lit(1)}))
+	var probeCases, blockCases, bodyCases []ast.Stmt
+	hasDefault := false
+	n := 0
+	for _, c := range x.Body.List {
+		cc := c.(*ast.CommClause)
+		if cc.Comm != nil {
+			n++
+		}
+	}
+	idx := 0
+	for _, c := range x.Body.List {
+		cc := c.(*ast.CommClause)
+		body := r.stmts(cc.Body)
+		if cc.Comm == nil {
+			hasDefault = true
+			bodyCases = append(bodyCases, &ast.CaseClause{List: []ast.Expr{lit(n)}, Body: body})
+			continue
+		}
+		i := idx
+		idx++
+		ch := nm("c", i)
+		switch comm := cc.Comm.(type) {
+		case *ast.SendStmt:
+			val := nm("s", i)
+			out = append(out, assign(token.DEFINE, []ast.Expr{ch}, comm.Chan), assign(token.DEFINE, []ast.Expr{val}, comm.Value))
+			probeCases = append(probeCases, &ast.CaseClause{List: []ast.Expr{lit(i)}, Body: []ast.Stmt{
+				&ast.IfStmt{Cond: r.call("TrySend", ch, val), Body: &ast.BlockStmt{List: []ast.Stmt{assign(token.ASSIGN, []ast.Expr{sel}, lit(i))}}},
+			}})
+			blockCases = append(blockCases, &ast.CommClause{Comm: &ast.SendStmt{Chan: ch, Value: val}, Body: []ast.Stmt{assign(token.ASSIGN, []ast.Expr{sel}, lit(i))}})
+			bodyCases = append(bodyCases, &ast.CaseClause{List: []ast.Expr{lit(i)}, Body: body})
+		default:
+			// receive forms: ExprStmt(<-c), AssignStmt(x [,ok] :=/= <-c)
+			var recv *ast.UnaryExpr
+			var lhs []ast.Expr
+			tok := token.ILLEGAL
+			switch cm := comm.(type) {
+			case *ast.ExprStmt:
+				recv, _ = cm.X.(*ast.UnaryExpr)
+			case *ast.AssignStmt:
+				recv, _ = cm.Rhs[0].(*ast.UnaryExpr)
+				lhs, tok = cm.Lhs, cm.Tok
+			}
+			if recv == nil || recv.Op != token.ARROW {
+				die("unsupported select communication in %s:%s", r.file, r.fn)
+			}
+			v, ok, got := nm("v", i), nm("ok", i), nm("g", i)
+			out = append(out,
+				assign(token.DEFINE, []ast.Expr{ch}, recv.X),
+				assign(token.DEFINE, []ast.Expr{v}, r.call("ZeroOf", ch)),
+				assign(token.DEFINE, []ast.Expr{ok}, ast.NewIdent("false")),
+				assign(token.ASSIGN, []ast.Expr{ast.NewIdent("_"), ast.NewIdent("_")}, v, ok),
+			)
+			probeCases = append(probeCases, &ast.CaseClause{List: []ast.Expr{lit(i)}, Body: []ast.Stmt{
+				&ast.DeclStmt{Decl: &ast.GenDecl{Tok: token.VAR, Specs: []ast.Spec{&ast.ValueSpec{Names: []*ast.Ident{got}, Type: ast.NewIdent("bool")}}}},
+				assign(token.ASSIGN, []ast.Expr{v, ok, got}, r.call("TryRecv", ch)),
+				&ast.IfStmt{Cond: got, Body: &ast.BlockStmt{List: []ast.Stmt{assign(token.ASSIGN, []ast.Expr{sel}, lit(i))}}},
+			}})
+			blockCases = append(blockCases, &ast.CommClause{
+				Comm: assign(token.ASSIGN, []ast.Expr{v, ok}, &ast.UnaryExpr{Op: token.ARROW, X: ch}),
+				Body: []ast.Stmt{assign(token.ASSIGN, []ast.Expr{sel}, lit(i))}})
+			var pro []ast.Stmt
+			switch len(lhs) {
+			case 1:
+				pro = append(pro, assign(tok, lhs, v))
+			case 2:
+				pro = append(pro, assign(tok, lhs, v, ok))
+			}
+			if tok == token.DEFINE {
+				for _, l := range lhs {
+					if idn, isId := l.(*ast.Ident); isId && idn.Name != "_" {
+						pro = append(pro, assign(token.ASSIGN, []ast.Expr{ast.NewIdent("_")}, l))
+					}
+				}
+			}
+			bodyCases = append(bodyCases, &ast.CaseClause{List: []ast.Expr{lit(i)}, Body: append(pro, body...)})
+		}
+	}
+	// probe loop
+	iv := ast.NewIdent(fmt.Sprintf("_simi%d", id))
+	if n > 0 {
+		loop := &ast.RangeStmt{Key: ast.NewIdent("_"), Value: iv, Tok: token.DEFINE, X: r.call("SelectOrder", r.site("selorder"), lit(n)),
+			Body: &ast.BlockStmt{List: []ast.Stmt{
+				&ast.SwitchStmt{Tag: iv, Body: &ast.BlockStmt{List: probeCases}},
+				&ast.IfStmt{Cond: &ast.BinaryExpr{X: sel, Op: token.GEQ, Y: lit(0)}, Body: &ast.BlockStmt{List: []ast.Stmt{&ast.BranchStmt{Tok: token.BREAK}}}},
+			}}}
+		out = append(out, loop)
+	}
+	var fallback []ast.Stmt
+	if hasDefault {
+		fallback = []ast.Stmt{assign(token.ASSIGN, []ast.Expr{sel}, lit(n))}
+	} else {
+		fallback = []ast.Stmt{&ast.SelectStmt{Body: &ast.BlockStmt{List: blockCases}}}
+	}
+	out = append(out, &ast.IfStmt{Cond: &ast.BinaryExpr{X: sel, Op: token.LSS, Y: lit(0)}, Body: &ast.BlockStmt{List: fallback}})
+	out = append(out, r.yield("selected"))
+	out = append(out, &ast.SwitchStmt{Tag: sel, Body: &ast.BlockStmt{List: bodyCases}})
+	return out
 }
 
 func (r *rewriter) wrapSync(s ast.Stmt, n ast.Node) []ast.Stmt {
